@@ -63,10 +63,18 @@ func MergeAttributes(app, edpnt map[string]*sysl.Attribute) map[string]*sysl.Att
 
 func TransformBlackboxesToUptos(m map[string]*Upto, bbs [][]string, uptoType UptoType) {
 	for _, val := range bbs {
+		// an entry is [endpoint, comment]; the comment may be left out
+		if len(val) == 0 {
+			continue
+		}
+		comment := ""
+		if len(val) > 1 {
+			comment = val[1]
+		}
 		m[val[0]] = &Upto{
 			VisitCount: 0,
 			ValueType:  uptoType,
-			Comment:    val[1],
+			Comment:    comment,
 		}
 	}
 }
